@@ -11,7 +11,7 @@ import random
 import torch
 from torch import nn
 
-from .. import probes, revgrid, zoo
+from .. import env, probes, revgrid, zoo
 from torchsde._core import base_sde, methods
 
 ID = "C15"
@@ -22,7 +22,7 @@ RULE = ("case = step-level (noise type, h incl. large, random (y0,z0), SDE seed)
 ASSUMPTIONS = ["trajectory level: n*dt kept where the reverse recursion is numerically stable (n <= 200, moderate "
                "Lipschitz constants); thresholds 1e-9*scale (exact / snapped grids), 1e-6*scale unsnapped decimal grids",
                "step level: the carried (f, g) are the vector fields at z (consistent extra state)"]
-REQUIRED_COUNTERS = ["step_cases", "traj_class_A", "traj_class_B", "large_h_steps", "traj_far_time_axis"]
+REQUIRED_COUNTERS = ["step_cases", "traj_class_A", "traj_class_B", "large_h_steps", "traj_far_time_axis", "traj_list_ts_under_default_f32", "traj_offgrid_outputs"]
 THRESHOLDS = {"step": 1e-12, "traj_exact": 1e-9, "traj_unsnapped": 1e-6}
 
 
@@ -103,16 +103,29 @@ def run_traj(case):
         t0, dt, n = rng.choice([(1024.0, 2.0 ** -7, 40), (-2048.0, 2.0 ** -6, 64), (64.0, 2.0 ** -11, 30)])
         cnt["traj_far_time_axis"] = 1
     ts = torch.tensor([t0 + k * dt for k in range(n + 1)])
+    # outputs requested only at a few times OFF the step grid (plus the two ends): both runs must still step on the
+    # dt-grid and interpolate, so the reverse run retraces the forward steps and the interpolated outputs coincide
+    offgrid = rng.random() < 0.35
+    cnt["traj_offgrid_outputs"] = int(offgrid)
+    if offgrid:
+        inner = sorted(t0 + (rng.randrange(0, n) + rng.choice([0.25, 0.5, 0.7])) * dt for _ in range(rng.choice([1, 2, 4])))
+        ts = torch.tensor([t0] + sorted(set(inner)) + [t0 + n * dt])
     entropy = rng.randrange(1, 10 ** 9)
-    y0 = torch.randn(B, d, generator=torch.Generator().manual_seed(case["rseed"]))
-    ctx = f"noise={nt} dt={dt} n={n} t0={t0} B={B} d={d} m={sde.m}"
+    y0 = torch.randn(B, d, dtype=torch.float64, generator=torch.Generator().manual_seed(case["rseed"]))
+    # times handed over as Python lists, float64 state and Brownian motion, PyTorch's default dtype float32 (the usual
+    # user set-up; the harness default is float64): the times must be taken in y0's dtype
+    lists = rng.random() < 0.3
+    cnt["traj_list_ts_under_default_f32"] = int(lists)
+    ctx = f"noise={nt} dt={dt} n={n} t0={t0} B={B} d={d} m={sde.m} list_ts_under_default_f32={lists} offgrid_outputs={offgrid}"
 
     def roundtrip(wrap):
-        bm = wrap(torchsde.BrownianInterval(float(ts[0]), float(ts[-1]), size=(B, sde.m), entropy=entropy))
+        bm = wrap(torchsde.BrownianInterval(float(ts[0]), float(ts[-1]), size=(B, sde.m), entropy=entropy,
+                                            dtype=torch.float64))
         pr = probes.SolverProbe(keep_states=False)
-        with torch.no_grad(), pr.installed():
-            ys, (f, g, z) = torchsde.sdeint(sde, y0, ts, bm=bm, method="reversible_heun", dt=dt, extra=True)
-            back = torchsde.sdeint(Minus(sde), ys[-1], -ts.flip(0), bm=torchsde.ReverseBrownian(bm),
+        tf, tb = (ts.tolist(), (-ts.flip(0)).tolist()) if lists else (ts, -ts.flip(0))
+        with torch.no_grad(), pr.installed(), env.default_dtype(torch.float32 if lists else torch.float64):
+            ys, (f, g, z) = torchsde.sdeint(sde, y0, tf, bm=bm, method="reversible_heun", dt=dt, extra=True)
+            back = torchsde.sdeint(Minus(sde), ys[-1], tb, bm=torchsde.ReverseBrownian(bm),
                                    method="reversible_heun", dt=dt, extra_solver_state=(-f, -g, z)).flip(0)
         fwd = [(s["t0"], s["t1"]) for s in pr.steps if s["solver"] == 0]
         bwd = sorted((-s["t1"], -s["t0"]) for s in pr.steps if s["solver"] == 1)
